@@ -173,6 +173,42 @@ Print Assumptions tls_handle_message_refuted.
 
 (* The raise sites, except clauses, subscripts and .decode() calls of every parser / handler of the CURRENT
    tls.py are those the model was written against (or those plus docs/C05-fix-7.patch). *)
-Theorem tls_sites_pinned : sites_eqb tls_sites sites_pinned || sites_eqb tls_sites sites_patched = true.
+Theorem tls_sites_pinned :
+  sites_eqb tls_sites sites_pinned || sites_eqb tls_sites sites_patched || sites_eqb tls_sites sites_patched9 = true.
 Proof. exact tls_sites_known. Qed.
 Print Assumptions tls_sites_pinned.
+
+(* Sessions: any sequence of receive_datagram calls delivering CRYPTO data.  With the gate at the top of
+   receive_datagram (54d8ff0) nothing reaches the TLS engine once a close is pending -- whatever half-updated
+   state [after_exn] the failed handler left -- so the session never ends in an escaping exception. *)
+Theorem tls_session_total : forall g, wf_cfg g -> forall after_exn chunks c closing, wf0 c ->
+  match crypto_session true true after_exn g c closing chunks with
+  | NOk c' => wf0 c'
+  | NClosing _ _ => True
+  | NExn _ => False
+  end.
+Proof. exact crypto_session_total. Qed.
+Print Assumptions tls_session_total.
+
+(* Without that gate (tree before 54d8ff0, finding T10): two ServerHello messages without key_share in two
+   datagrams, no datagrams_to_send() in between: AttributeError (None.select) escapes; with the gate: CRYPTO_ERROR
+   + illegal_parameter and the second datagram is ignored. *)
+Theorem tls_session_refuted :
+  wf_cfg cfg_default_client /\ wf0 t10_ctx /\
+  crypto_session true false t10_after cfg_default_client t10_ctx None
+    [([orc0], FT_CRYPTO, sh_no_key_share); ([orc0], FT_CRYPTO, sh_no_key_share)] = NExn TX_AttributeError /\
+  crypto_session true true t10_after cfg_default_client t10_ctx None
+    [([orc0], FT_CRYPTO, sh_no_key_share); ([orc0], FT_CRYPTO, sh_no_key_share)]
+    = NClosing (EC_CRYPTO_ERROR + AD_illegal_parameter) FT_CRYPTO.
+Proof. exact crypto_session_refuted. Qed.
+Print Assumptions tls_session_refuted.
+
+(* Finding T11, tree without docs/C05-fix-9.patch: a Certificate whose X.509 version field is not 1 or 3 makes
+   x509.load_der_x509_certificate raise x509.InvalidVersion, which `except ValueError` in _set_peer_certificate does
+   not catch. *)
+Theorem tls_certificate_refuted :
+  wf0 t11_ctx /\
+  handle_message false cfg_default_client t11_ctx [t11_orc] t11_cert = MExn (XOther TX_InvalidVersion) /\
+  handle_message true cfg_default_client t11_ctx [t11_orc] t11_cert = MExn (XAlert AD_bad_certificate).
+Proof. exact set_peer_certificate_refuted. Qed.
+Print Assumptions tls_certificate_refuted.
